@@ -576,6 +576,11 @@ class LoopMixin:
             sep = rest[0]
             if isinstance(sep, str) and all(isinstance(x, str) for x in items):
                 return sep.join(items)
+            if sep == b"":
+                acc = b""
+                for x in items:
+                    acc = self.binop("Add", acc, x, st)
+                return acc
             if sep == "":
                 acc = ""
                 for x in items:
